@@ -8,7 +8,7 @@ from vlib.ref import bip85 as R85
 from vlib.util import call, expect_eq
 
 PROPERTY_ID = "C17"
-OPTIMIZED = ['malformed']   # clauses run a second time under `python -O` (assert statements stripped)
+OPTIMIZED = ['malformed', 'parse-format', 'lookup', 'lenient']   # clauses run a second time under `python -O` (assert statements stripped)
 RULE = ("index lists of length 0..5 over [0, 2^32) rendered with ' or h per component and root m or M; malformed "
         "strings from a grammar of single faults applied to a valid rendering of at most five components; paths of "
         "6..12 components; lookups compared with iterated child derivation and with the independent BIP32 model on two "
